@@ -260,6 +260,23 @@ def tablesOk (t : CTab) : Bool :=
   lettersOk && rowsOk t && allNonzero t && reqsOk t [] &&
   !t.any (fun p => setsField p.2.2 .f_human_readable) && decide (init.ints .f_human_readable ≤ 1)
 
+/-- what `Opts.finish` was written from: the statements after the option loop of `ParseArguments` that touch the
+fields it reads or writes (version and help exits, `xfer_dirs` from `recurse`, "`--delete` needs `-r`"). `list_only` has
+no row in the tables in use, so the inner branch of the fourth statement always takes `else`. -/
+def finishTailExpected : List String := [
+  "if version_opt_cnt > 0 { return &ExitError{Code: 0, Output: version.Read()} }",
+  "if opts.human_readable > 1 && len(args) == 1 { return &ExitError{Code: 0, Output: opts.Help()} }",
+  "if opts.recurse != 0 { opts.xfer_dirs = 1 }",
+  "if opts.xfer_dirs < 0 { if opts.list_only != 0 { opts.xfer_dirs = 1 } else { opts.xfer_dirs = 0 } }",
+  "if opts.delete_mode != 0 && opts.recurse == 0 { return fmt.Errorf(\"--delete does not work without --recursive (-r)\") }"]
+
+/-- **regenerated tie of `Opts.finish`**: the tail of `ParseArguments` reads as above on the current source (any other
+text breaks this obligation; then `finish` has to be looked at again), and no table in use has a `list-only` row -/
+theorem finish_tail_pinned :
+    (Gen.OptTable.finishTail == finishTailExpected) = true ∧
+    (mainRows ++ daemonAllRows).all (fun r => r.long != "list-only".toList) = true := by
+  constructor <;> decide +kernel
+
 theorem finish_ok (n : Nat) (s : St) (hv : s.version = false) (hh : s.ints .f_human_readable ≤ 1)
     (hd : s.ints .f_delete_mode ≠ 0 → s.ints .f_recurse ≠ 0) :
     ∃ s', finish n s = .ok s' ∧ ∀ f, f ≠ .f_xfer_dirs → s'.ints f = s.ints f := by
